@@ -22,6 +22,7 @@ package main
 
 import (
 	"fmt"
+	"math/bits"
 	"sort"
 	"strings"
 	"sync"
@@ -46,6 +47,28 @@ type c19Shared struct {
 	fs              map[int][][]byte // n-bit words of every key, n = 1,2,4,8
 	sb              *sigbits.SigBits
 	fdb             []int32 // FirstDiffBits(keys), what sb holds
+	// a second shared bitmap (derived from the first: other contents, one word longer) with its indexes:
+	// function ids 100+f run bitmap function f on it, so that the goroutines of one batch call the same
+	// function with DIFFERENT arguments at the same time (hidden scratch state then shows as a wrong answer)
+	alt *c19Shared
+	pos []int32 // the 1-bit positions of words (shared input of the builders)
+}
+
+func c19AltWords(words []uint64) []uint64 {
+	w2 := make([]uint64, len(words)+1)
+	for i, w := range words {
+		w2[i] = bits.Reverse64(w) ^ 0x5555555555555555>>uint(i&3)
+	}
+	w2[len(words)] = 0xf00000000000000f
+	return w2
+}
+
+func c19BuildBitmap(sh *c19Shared) {
+	sh.r64 = bitmap.IndexRank64(sh.words)
+	sh.r128 = bitmap.IndexRank128(sh.words)
+	sh.s32 = bitmap.IndexSelect32(sh.words)
+	sh.s32b, sh.r64b = bitmap.IndexSelect32R64(sh.words)
+	sh.pos = bitmap.ToArray(sh.words)
 }
 
 var c19Widths = []int{1, 2, 4, 8}
@@ -60,10 +83,9 @@ func c19BsTo(i int, s string) int32 {
 
 func c19Build(words []uint64, tsize int32, keys []string) *c19Shared {
 	sh := &c19Shared{words: words, tsize: tsize, keys: keys, fs: map[int][][]byte{}}
-	sh.r64 = bitmap.IndexRank64(words)
-	sh.r128 = bitmap.IndexRank128(words)
-	sh.s32 = bitmap.IndexSelect32(words)
-	sh.s32b, sh.r64b = bitmap.IndexSelect32R64(words)
+	c19BuildBitmap(sh)
+	sh.alt = &c19Shared{words: c19AltWords(words), tsize: tsize}
+	c19BuildBitmap(sh.alt)
 	for i, k := range keys {
 		sh.kb = append(sh.kb, []byte(k))
 		sh.bs = append(sh.bs, bitstr.New(k, 0, c19BsTo(i, k)))
@@ -79,7 +101,11 @@ func c19Build(words []uint64, tsize int32, keys []string) *c19Shared {
 // c19Derived renders everything that is derived from the primary inputs and shared between the goroutines.
 func (sh *c19Shared) derived() string {
 	var b strings.Builder
-	b.WriteString(I32s(sh.r64) + I32s(sh.r128) + I32s(sh.s32) + I32s(sh.s32b) + I32s(sh.r64b))
+	b.WriteString(I32s(sh.r64) + I32s(sh.r128) + I32s(sh.s32) + I32s(sh.s32b) + I32s(sh.r64b) + I32s(sh.pos))
+	if sh.alt != nil {
+		a := sh.alt
+		b.WriteString(U64s(a.words) + I32s(a.r64) + I32s(a.r128) + I32s(a.s32) + I32s(a.s32b) + I32s(a.r64b) + I32s(a.pos))
+	}
 	b.WriteString(ByteSlices(sh.kb) + ByteSlices(sh.bs))
 	for _, n := range c19Widths {
 		b.WriteString(ByteSlices(sh.fs[n]))
@@ -121,11 +147,13 @@ var c19Names = map[int]string{
 	1: "bitmap.Rank64", 2: "bitmap.Rank128", 3: "bitmap.Select32", 4: "bitmap.Select32R64", 5: "bitmap.NextOne",
 	6: "bitmap.PrevOne", 7: "bitmap.Slice", 8: "bitmap.ToArray", 9: "bitmap.Getw", 10: "bitmap.FromStr32",
 	11: "bitmap.Get", 12: "bitmap.Get1", 13: "bitmap.SafeGet", 14: "bitmap.SafeGet1",
-	15: "bitmap.IndexRank64", 16: "bitmap.IndexRank128", 17: "bitmap.IndexSelect32", 18: "bitmap.IndexSelect32R64",
+	15: "bitmap.IndexRank64", 16: "bitmap.IndexRank128", 17: "bitmap.IndexSelect32", 18: "bitmap.IndexSelect32R64", 19: "bitmap.Fmt",
 	20: "bmtree.PathToIndex", 21: "bmtree.PathToIndexLoose", 22: "bmtree.IndexToPath", 23: "bmtree.AllPaths", 24: "bmtree.Decode",
 	25: "bmtree.PathOf", 26: "bmtree.PathsOf",
 	30: "bitstr.Cmp", 31: "bitstr.CmpUpto", 32: "bitstr.StrCmpUpto", 33: "bitstr.Len", 34: "bitstr.New",
 	40: "bitword.FromStr", 41: "bitword.ToStr", 42: "bitword.Get", 43: "bitword.FirstDiff", 44: "bitword.FromStrs", 45: "bitword.ToStrs",
+	// every goroutine OWNS what it builds, the inputs are shared (widening: Spec/Ownership.v)
+	60: "bitmap.Of", 61: "bitmap.Builder", 62: "bitmap.TailBitmap",
 	50: "sigbits.FirstDiffBits", 51: "sigbits.ShardByPrefix", 52: "sigbits.CountPrefixes", 53: "sigbits.New",
 }
 
@@ -136,10 +164,56 @@ var c19Listed = map[int]bool{1: true, 2: true, 3: true, 4: true, 5: true, 6: tru
 
 func c19Pair(a, b int32) string { return L(I32(a), I32(b)) }
 
+// The caller owns what a function returns.  After rendering a returned slice the executor overwrites it: if
+// the result aliased an argument, a shared index or a table, that shows as a changed input / a wrong answer in
+// another goroutine / a race report.
+func c19U64s(r []uint64) string {
+	s := U64s(r)
+	for i := range r {
+		r[i] = ^r[i]
+	}
+	return s
+}
+func c19I32s(r []int32) string {
+	s := I32s(r)
+	for i := range r {
+		r[i] = ^r[i]
+	}
+	return s
+}
+func c19Bytes(r []byte) string {
+	s := Bytes(r)
+	for i := range r {
+		r[i] = ^r[i]
+	}
+	return s
+}
+func c19ByteSlices(r [][]byte) string {
+	s := ByteSlices(r)
+	for i := range r {
+		for j := range r[i] {
+			r[i][j] = ^r[i][j]
+		}
+		r[i] = nil
+	}
+	return s
+}
+func c19Strs(r []string) string {
+	s := Strs(r)
+	for i := range r {
+		r[i] = ""
+	}
+	return s
+}
+
 // c19Do runs one call of the REAL function on the shared inputs and renders the result.
 func c19Do(sh *c19Shared, c c19Call) string {
 	i1, i2, i3 := int32(c.p1), int32(c.p2), int32(c.p3)
-	switch c.fid {
+	fid := c.fid
+	if fid > 100 {
+		fid, sh = fid-100, sh.alt
+	}
+	switch fid {
 	case 1:
 		return c19Pair(bitmap.Rank64(sh.words, sh.r64, i1))
 	case 2:
@@ -153,9 +227,9 @@ func c19Do(sh *c19Shared, c c19Call) string {
 	case 6:
 		return I32(bitmap.PrevOne(sh.words, i1, i2))
 	case 7:
-		return U64s(bitmap.Slice(sh.words, i1, i2))
+		return c19U64s(bitmap.Slice(sh.words, i1, i2))
 	case 8:
-		return I32s(bitmap.ToArray(sh.words))
+		return c19I32s(bitmap.ToArray(sh.words))
 	case 9:
 		return U(bitmap.Getw(sh.words, i1, i2))
 	case 10:
@@ -170,14 +244,16 @@ func c19Do(sh *c19Shared, c c19Call) string {
 	case 14:
 		return U(bitmap.SafeGet1(sh.words, i1))
 	case 15:
-		return I32s(bitmap.IndexRank64(sh.words))
+		return c19I32s(bitmap.IndexRank64(sh.words))
 	case 16:
-		return I32s(bitmap.IndexRank128(sh.words))
+		return c19I32s(bitmap.IndexRank128(sh.words))
 	case 17:
-		return I32s(bitmap.IndexSelect32(sh.words))
+		return c19I32s(bitmap.IndexSelect32(sh.words))
 	case 18:
 		a, b := bitmap.IndexSelect32R64(sh.words)
-		return L(I32s(a), I32s(b))
+		return L(c19I32s(a), c19I32s(b))
+	case 19:
+		return Str(bitmap.Fmt(sh.words) + "|" + bitmap.Fmt(sh.r64))
 	case 20:
 		return I32(bmtree.PathToIndex(sh.tsize, c.p1))
 	case 21:
@@ -185,13 +261,13 @@ func c19Do(sh *c19Shared, c c19Call) string {
 	case 22:
 		return U(bmtree.IndexToPath(i1, i2))
 	case 23:
-		return U64s(bmtree.AllPaths(sh.tsize, c.p1, c.p2))
+		return c19U64s(bmtree.AllPaths(sh.tsize, c.p1, c.p2))
 	case 24:
-		return U64s(bmtree.Decode(sh.tsize, sh.words))
+		return c19U64s(bmtree.Decode(sh.tsize, sh.words))
 	case 25:
 		return U(bmtree.PathOf(sh.keys[c.p1], i2, i3))
 	case 26:
-		return U64s(bmtree.PathsOf(sh.keys, i1, i2, c.p3 != 0))
+		return c19U64s(bmtree.PathsOf(sh.keys, i1, i2, c.p3 != 0))
 	case 30:
 		return Int(bitstr.Cmp(sh.bs[c.p1], sh.bs[c.p2]))
 	case 31:
@@ -201,9 +277,9 @@ func c19Do(sh *c19Shared, c c19Call) string {
 	case 33:
 		return I32(bitstr.Len(sh.bs[c.p1]))
 	case 34:
-		return Bytes(bitstr.New(sh.keys[c.p1], i2, i3))
+		return c19Bytes(bitstr.New(sh.keys[c.p1], i2, i3))
 	case 40:
-		return Bytes(bitword.BitWord[int(c.p1)].FromStr(sh.keys[c.p2]))
+		return c19Bytes(bitword.BitWord[int(c.p1)].FromStr(sh.keys[c.p2]))
 	case 41:
 		return Str(bitword.BitWord[int(c.p1)].ToStr(sh.fs[int(c.p1)][c.p2]))
 	case 42:
@@ -211,20 +287,50 @@ func c19Do(sh *c19Shared, c c19Call) string {
 	case 43:
 		return Int(bitword.BitWord[int(c.p1)].FirstDiff(sh.keys[c.p2], sh.keys[c.p3], 0, -1))
 	case 44:
-		return ByteSlices(bitword.BitWord[int(c.p1)].FromStrs(sh.keys))
+		return c19ByteSlices(bitword.BitWord[int(c.p1)].FromStrs(sh.keys))
 	case 45:
-		return Strs(bitword.BitWord[int(c.p1)].ToStrs(sh.fs[int(c.p1)]))
+		return c19Strs(bitword.BitWord[int(c.p1)].ToStrs(sh.fs[int(c.p1)]))
+	case 60:
+		return c19U64s(bitmap.Of(sh.pos, int32(64*len(sh.words))))
+	case 61:
+		// a Builder of this goroutine alone: the positions below 64*p1 in one Extend, the others by Set
+		b := bitmap.NewBuilder(int32(64 * len(sh.words)))
+		cut := 0
+		for cut < len(sh.pos) && sh.pos[cut] < 64*i1 {
+			cut++
+		}
+		b.Extend(sh.pos[:cut], 64*i1)
+		for _, p := range sh.pos[cut:] {
+			b.Set(p, 1)
+		}
+		return L(U64s(b.Words), I32(b.Offset))
+	case 62:
+		// a TailBitmap of this goroutine alone, set in an order that depends on p1, compacted as it goes
+		tb := bitmap.NewTailBitmap(0)
+		n := len(sh.pos)
+		for k := 0; k < n; k++ {
+			tb.Set(int64(sh.pos[(k+int(c.p1))%n]))
+		}
+		tb.Compact()
+		var probe []string
+		for _, p := range sh.pos {
+			probe = append(probe, U(tb.Get1(int64(p))))
+			if len(probe) >= 8 {
+				break
+			}
+		}
+		return L(I(tb.Offset), U64s(tb.Words), L(probe...))
 	case 50:
-		return I32s(sigbits.FirstDiffBits(sh.keys))
+		return c19I32s(sigbits.FirstDiffBits(sh.keys))
 	case 51:
 		a, b := sigbits.ShardByPrefix(sh.keys, i1)
-		return L(I32s(a), I32s(b))
+		return L(c19I32s(a), c19I32s(b))
 	case 52:
 		m, cnt := sh.sb.CountPrefixes(i1, i2, i3)
-		return L(I32(m), I32s(cnt))
+		return L(I32(m), c19I32s(cnt))
 	case 53:
 		m, cnt := sigbits.New(sh.keys).CountPrefixes(0, int32(len(sh.keys)), 9)
-		return L(I32(m), I32s(cnt))
+		return L(I32(m), c19I32s(cnt))
 	}
 	panic("c19: unknown function id")
 }
@@ -261,7 +367,7 @@ func init() {
 				seen := make([]bool, n)
 				changed := make([]bool, n)
 				<-start
-				for r := 0; r < R; r++ {
+				for r := 0; r < R*c19RepFactor; r++ {
 					for k := 0; k < n; k++ {
 						// every goroutine walks the batch in its own order
 						idx := (k + t*7 + r*3) % n
@@ -293,12 +399,14 @@ func init() {
 // ---------------------------------------------------------------------------- generator
 
 type c19Gen struct {
-	g     *Gen
-	words []uint64
-	tsize int32
-	keys  []string
-	paths []uint64 // stored paths of the tree (AllPaths over everything)
-	ones  int
+	words2 []uint64
+	ones2  int
+	g      *Gen
+	words  []uint64
+	tsize  int32
+	keys   []string
+	paths  []uint64 // stored paths of the tree (AllPaths over everything)
+	ones   int
 }
 
 func c19Height(tsize int32) int32 { return bmtree.Height(tsize) }
@@ -337,7 +445,24 @@ func c19Keys(r *Rand, n int) []string {
 func (x *c19Gen) n() int { return 64 * len(x.words) }
 
 // one random in-domain call of function fid (ok=false: no in-domain argument exists for these inputs)
+// bitmap functions that can run on the second shared bitmap (function id + 100)
+var c19AltOK = map[int]bool{19: true, 60: true, 61: true, 62: true, 1: true, 2: true, 3: true, 4: true, 5: true, 6: true, 7: true, 8: true, 9: true,
+	11: true, 12: true, 13: true, 14: true, 15: true, 16: true, 17: true, 18: true, 24: true}
+
 func (x *c19Gen) call(fid int) (c19Call, bool) {
+	r := x.g.R
+	if c19AltOK[fid] && r.Bool() {
+		// the same generator on the second bitmap
+		y := *x
+		y.words, y.ones = x.words2, x.ones2
+		c, ok := y.callOn(fid)
+		c.fid += 100
+		return c, ok
+	}
+	return x.callOn(fid)
+}
+
+func (x *c19Gen) callOn(fid int) (c19Call, bool) {
 	r := x.g.R
 	n := x.n()
 	pos := func() int { // a bit position, biased to word boundaries
@@ -372,7 +497,14 @@ func (x *c19Gen) call(fid int) (c19Call, bool) {
 	case 7:
 		f := r.Intn(n + 1)
 		c.p1, c.p2 = uint64(f), uint64(r.Range(f, n))
-	case 8, 15, 16, 17, 18, 24, 50, 53:
+	case 8, 15, 16, 17, 18, 19, 24, 50, 53, 60:
+	case 61:
+		c.p1 = uint64(r.Intn(len(x.words) + 1))
+	case 62:
+		if x.ones == 0 {
+			return c, false
+		}
+		c.p1 = uint64(r.Intn(x.ones))
 	case 9:
 		w := r.Pick(1, 2, 4, 8, 16, 32, 64)
 		c.p1, c.p2 = uint64(r.Intn(n/w)), uint64(w)
@@ -444,6 +576,13 @@ func (x *c19Gen) call(fid int) (c19Call, bool) {
 	return c, true
 }
 
+func (r *Rand) shuffleCalls(cs []c19Call) {
+	for i := len(cs) - 1; i > 0; i-- {
+		j := r.Intn(i + 1)
+		cs[i], cs[j] = cs[j], cs[i]
+	}
+}
+
 var c19Fids = func() []int {
 	var l []int
 	for f := range c19Names {
@@ -474,9 +613,9 @@ func (x *c19Gen) emit(T, R int, calls []c19Call, bucket string) {
 	listed := 0
 	for i, c := range calls {
 		txt[i] = c19CallText(c, c19Try(private, c))
-		fset[c.fid] = true
-		g.Stats["call:"+c19Names[c.fid]]++
-		if c19Listed[c.fid] {
+		fset[c.fid%100] = true
+		g.Stats["call:"+c19Names[c.fid%100]]++
+		if c19Listed[c.fid%100] {
 			listed++
 		}
 	}
@@ -496,6 +635,46 @@ func (x *c19Gen) emit(T, R int, calls []c19Call, bucket string) {
 	g.Stat(bucket)
 	g.Stat(fmt.Sprintf("goroutines:%d", T))
 	g.Do("c19.Batch", L(Int(T), Int(R), U64s(x.words), I32(x.tsize), Strs(x.keys), L(txt...)), key)
+	x.againstModel(calls)
+}
+
+// againstModel ties the refs to the Coq MODEL: one call of the batch whose function has a finished model
+// (Rank64/Rank128: C01, Select32/Select32R64: C02, NextOne/PrevOne: C13) is also emitted as an ordinary case of
+// that property's operation, which the driver judges against M and S.  (c19.Batch itself says concurrent = alone;
+// this says alone = M.)  Trivial key: these lines do not count as C19 cases of their own.
+func (x *c19Gen) againstModel(calls []c19Call) {
+	g := x.g
+	start := g.R.Intn(len(calls))
+	for k := range calls {
+		c := calls[(start+k)%len(calls)]
+		ws := x.words
+		if c.fid > 100 {
+			ws = x.words2
+		}
+		var op, args string
+		switch c.fid % 100 {
+		case 1:
+			op, args = "bitmap.Rank64", L(U64s(ws), "0", U(c.p1))
+		case 2:
+			op, args = "bitmap.Rank128", L(U64s(ws), U(c.p1))
+		case 3:
+			op, args = "bitmap.Select32", L(U64s(ws), U(c.p1))
+		case 4:
+			op, args = "bitmap.Select32R64", L(U64s(ws), U(c.p1))
+		case 5:
+			op, args = "bitmap.NextOne", L(U64s(ws), U(c.p1), U(c.p2))
+		case 6:
+			op, args = "bitmap.PrevOne", L(U64s(ws), U(c.p1), U(c.p2))
+		default:
+			continue
+		}
+		if _, ok := Exec[op]; !ok {
+			return
+		}
+		g.Stat("alone-vs-model:" + op)
+		g.Do(op, args, "")
+		return
+	}
 }
 
 // c19OneBacking re-creates the keys as substrings of ONE freshly allocated string, so that all key bytes
@@ -522,6 +701,8 @@ func c19CopyKeys(keys []string) []string {
 func (x *c19Gen) setInputs(words []uint64, tsize int32, keys []string) {
 	x.words, x.tsize, x.keys = words, tsize, keys
 	x.ones = popcount(words)
+	x.words2 = c19AltWords(words)
+	x.ones2 = popcount(x.words2)
 	x.paths = bmtree.AllPaths(tsize, 0, 1<<63)
 }
 
@@ -586,8 +767,14 @@ func genC19(g *Gen) {
 		add(3, uint64(k))
 		add(4, uint64(k))
 	}
-	for _, f := range []int{8, 15, 16, 17, 18, 24, 50, 53} {
+	for _, f := range []int{8, 15, 16, 17, 18, 19, 24, 50, 53, 60} {
 		add(f)
+	}
+	for k := 0; k <= len(x.words); k++ {
+		add(61, uint64(k))
+	}
+	for k := 0; k < x.ones; k++ {
+		add(62, uint64(k))
 	}
 	for k := 0; k < nk; k++ {
 		for from := 0; from <= 8*len(x.keys[k])+8; from++ {
@@ -663,8 +850,64 @@ func genC19(g *Gen) {
 			}
 		}
 	}
+	// the same bitmap calls on the second shared bitmap (positions 0..191), interleaved with the first
+	{
+		alt := func(f int, p ...uint64) {
+			add(f, p...)
+			all[f][len(all[f])-1].fid = f + 100
+		}
+		n2 := 64 * len(x.words2)
+		for i := 0; i < n2; i++ {
+			for _, f := range []int{1, 2, 11, 12, 13, 14} {
+				alt(f, uint64(i))
+			}
+			alt(5, uint64(i), uint64(n2))
+			alt(6, uint64(i), uint64(n2))
+			alt(7, uint64(i), uint64(n2))
+			alt(9, uint64(i/8), 8)
+		}
+		for k := 0; k < x.ones2; k++ {
+			alt(3, uint64(k))
+			alt(4, uint64(k))
+		}
+		for _, f := range []int{8, 15, 16, 17, 18, 19, 24, 60} {
+			alt(f)
+		}
+		for k := 0; k <= len(x.words2); k++ {
+			alt(61, uint64(k))
+		}
+		for k := 0; k < x.ones2; k += 5 {
+			alt(62, uint64(k))
+		}
+		for _, f := range []int{1, 2, 3, 4, 5, 6, 7, 9, 11, 12, 13, 14} {
+			r.shuffleCalls(all[f]) // a call on one bitmap next to a call on the other
+		}
+	}
+	// (0) one call of every function (on both bitmaps) in ONE batch from 16 goroutines.  The same line is the
+	// first line of corpus/C19.txt, which runs before anything else: there the concurrent run is the FIRST use of
+	// every function in the process (a lazily initialised table races / is seen half-filled).
+	{
+		var cs []c19Call
+		for _, f := range c19Fids {
+			if l := all[f]; len(l) > 0 {
+				cs = append(cs, l[len(l)/2])
+				if c19AltOK[f] {
+					for _, c := range l {
+						if c.fid > 100 {
+							cs = append(cs, c)
+							break
+						}
+					}
+				}
+			}
+		}
+		x.emit(16, 1, cs, "every-function-once")
+	}
 	for _, f := range c19Fids {
 		cs := all[f]
+		if len(cs) <= 2 && len(cs) > 0 { // the argument-free functions: both bitmaps, several times each
+			cs = append(append(append([]c19Call{}, cs...), cs...), cs...)
+		}
 		for len(cs) > 0 { // chunks of at most 64 calls
 			k := len(cs)
 			if k > 64 {
@@ -675,12 +918,12 @@ func genC19(g *Gen) {
 		}
 	}
 	g.Exhaust = append(g.Exhaust, fmt.Sprintf("c19: each of the %d function ids alone from 8 goroutines x every in-domain argument over the fixed inputs "+
-		"(2 words, bitmapSize 0b1011, 4 keys; positions 0..127, every Getw width, every key pair, every stored path, every (height<=4, index))", len(c19Fids)))
+		"(2 words, bitmapSize 0b1011, 4 keys; positions 0..127 and 0..191 of the second shared bitmap, every Getw width, every key pair, every stored path, every (height<=4, index))", len(c19Fids)))
 
 	// (2) mixed batches of all functions over random shared inputs, 8..16 goroutines.
 	// First over ascending sizes (capacity boundaries of a hidden scratch buffer are crossed in order),
 	// then random.
-	nb := g.N(1400, 12000)
+	nb := g.N(1000, 10000)
 	for b := 0; b < nb; b++ {
 		var nw, nkeys int
 		if b < 64 {
@@ -705,7 +948,7 @@ func genC19(g *Gen) {
 		case 1: // one package
 			lo := r.Pick(1, 20, 30, 40, 50)
 			for _, f := range c19Fids {
-				if f >= lo && f < lo+10 || lo == 1 && f < 20 {
+				if f >= lo && f < lo+10 || lo == 1 && (f < 20 || f >= 60) {
 					pool = append(pool, f)
 				}
 			}
@@ -729,7 +972,7 @@ func genC19(g *Gen) {
 
 	// (3) the string alias: StrCmpUpto / CmpUpto / Cmp on keys that share the bytes of ONE backing array
 	// (substrings of one string), so a write through the alias would be seen by the neighbours.
-	for b := 0; b < g.N(150, 1500); b++ {
+	for b := 0; b < g.N(120, 1200); b++ {
 		base := string(r.Bytes(r.Range(4, 40), alphabets[r.Intn(len(alphabets))]))
 		set := map[string]bool{}
 		for i := 0; i < 12; i++ {
